@@ -181,8 +181,12 @@ def run_kind(prog, res, kind):
         else:
             # failed open must not leave an un-closed device behind
             if ("obj:device", ("state",)) in s.m and not s.get(G_CLOSED) and not s.get(("freed", "obj:device")):
-                model.report(it, "HAL-CLOSE-ONCE", "%s_open>leak" % low,
-                             "%s_open reports failure after the driver had opened the device (describe() failed in driver_open_device) and never closes it: an open without a close" % low)
+                if s.get(("ghost", kind, "described")) == 0:
+                    model.report(it, "HAL-CLOSE-ONCE", "%s_open>leak" % low,
+                                 "%s_open reports failure after the driver had opened the device (describe() failed in driver_open_device) and never closes it: an open without a close" % low)
+                else:
+                    model.report(it, "HAL-CLOSE-ONCE", "%s_open>leak-after-describe" % low,
+                                 "%s_open reports failure although the driver opened and described the device, and never closes it: an open without a close" % low)
             inits.append(("open-failed", s.set(("nodev",), 1)))
     ex = Explorer(it, ops)
     ex.explore(inits)
@@ -194,8 +198,17 @@ def run_kind(prog, res, kind):
                                                   ("ptr", "obj:arg", ())], s0):
             opened = s.get(model.G_CLOSED) is not None
             if opened and not s.get(model.G_CLOSED):
-                model.report(it, "HAL-CLOSE-ONCE", "storage_validate>leak",
-                             "storage_validate returns with the device it opened still open")
+                last = s.get(G_LAST)
+                kind_v = dict(prog.enum_values("DeviceKind"))["DeviceKind_Storage"]
+                adopted = it.read_quiet(s, (model.DEV, ("device", "identifier", "kind")))
+                if not (is_int(adopted) and adopted[1] == kind_v):
+                    adopted = it.read_quiet(s, (model.DEV, ("identifier", "kind")))
+                if (last and last[0] == "set") or (is_int(adopted) and adopted[1] == kind_v and s.get(("ghost", kind, "described")) == 1):
+                    model.report(it, "HAL-CLOSE-ONCE", "storage_validate>leak-after-set",
+                                 "storage_validate returns with the device it opened and configured still open")
+                else:
+                    model.report(it, "HAL-CLOSE-ONCE", "storage_validate>leak",
+                                 "storage_validate returns with the device it opened still open (the open path failed after the driver's open())")
             ex.transitions += 1
     if it.truncated:
         raise AnalysisBroken("exploration truncated: %s" % it.truncated[:3])
